@@ -23,6 +23,18 @@ def tf(b):
     return "t" if b else "f"
 
 
+def fn(n):
+    return "n:%d" % n
+
+
+def fb(b):
+    return "b:" + tf(b)
+
+
+def fx(b):
+    return "x:" + hx(b)
+
+
 class Fr:
     """A frame: bytes + the decoded tokens the model reads."""
 
@@ -45,7 +57,7 @@ def meth(ch, name, args=b"", fields=()):
 
 
 def conn_close(code, text, ch=0):
-    return meth(ch, "connection.close", amqp.close_args(code, text), [code, hx(text)])
+    return meth(ch, "connection.close", amqp.close_args(code, text), [fn(code), fx(text)])
 
 
 def conn_close_ok(ch=0):
@@ -53,7 +65,7 @@ def conn_close_ok(ch=0):
 
 
 def blocked(reason, ch=0):
-    return meth(ch, "connection.blocked", amqp.shortstr(reason), [hx(reason)])
+    return meth(ch, "connection.blocked", amqp.shortstr(reason), [fx(reason)])
 
 
 def unblocked(ch=0):
@@ -61,7 +73,7 @@ def unblocked(ch=0):
 
 
 def chan_close(ch, code, text):
-    return meth(ch, "channel.close", amqp.close_args(code, text), [code, hx(text)])
+    return meth(ch, "channel.close", amqp.close_args(code, text), [fn(code), fx(text)])
 
 
 def chan_close_ok(ch):
@@ -73,30 +85,30 @@ def chan_open_ok(ch):
 
 
 def consume_ok(ch, tag):
-    return meth(ch, "basic.consume-ok", amqp.shortstr(tag), [hx(tag)])
+    return meth(ch, "basic.consume-ok", amqp.shortstr(tag), [fx(tag)])
 
 
 def cancel(ch, tag, nowait):
-    return meth(ch, "basic.cancel", amqp.shortstr(tag) + amqp.bits(nowait), [hx(tag), tf(nowait)])
+    return meth(ch, "basic.cancel", amqp.shortstr(tag) + amqp.bits(nowait), [fx(tag), fb(nowait)])
 
 
 def cancel_ok(ch, tag):
-    return meth(ch, "basic.cancel-ok", amqp.shortstr(tag), [hx(tag)])
+    return meth(ch, "basic.cancel-ok", amqp.shortstr(tag), [fx(tag)])
 
 
 def deliver(ch, tag, dtag, red, ex, rk):
     return meth(ch, "basic.deliver", amqp.shortstr(tag) + amqp.u64(dtag) + amqp.bits(red) + amqp.shortstr(ex) + amqp.shortstr(rk),
-                [hx(tag), dtag, tf(red), hx(ex), hx(rk)])
+                [fx(tag), fn(dtag), fb(red), fx(ex), fx(rk)])
 
 
 def ret(ch, code, text, ex, rk):
     return meth(ch, "basic.return", amqp.u16(code) + amqp.shortstr(text) + amqp.shortstr(ex) + amqp.shortstr(rk),
-                [code, hx(text), hx(ex), hx(rk)])
+                [fn(code), fx(text), fx(ex), fx(rk)])
 
 
 def get_ok(ch, dtag, red, ex, rk, count):
     return meth(ch, "basic.get-ok", amqp.u64(dtag) + amqp.bits(red) + amqp.shortstr(ex) + amqp.shortstr(rk) + amqp.u32(count),
-                [dtag, tf(red), hx(ex), hx(rk), count])
+                [fn(dtag), fb(red), fx(ex), fx(rk), fn(count)])
 
 
 def get_empty(ch):
@@ -104,23 +116,23 @@ def get_empty(ch):
 
 
 def ack(ch, dtag, mult):
-    return meth(ch, "basic.ack", amqp.u64(dtag) + amqp.bits(mult), [dtag, tf(mult)])
+    return meth(ch, "basic.ack", amqp.u64(dtag) + amqp.bits(mult), [fn(dtag), fb(mult)])
 
 
 def nack(ch, dtag, mult, requeue=False):
-    return meth(ch, "basic.nack", amqp.u64(dtag) + amqp.bits(mult, requeue), [dtag, tf(mult)])
+    return meth(ch, "basic.nack", amqp.u64(dtag) + amqp.bits(mult, requeue), [fn(dtag), fb(mult)])
 
 
 def queue_declare_ok(ch, name, mc, cc):
-    return meth(ch, "queue.declare-ok", amqp.shortstr(name) + amqp.u32(mc) + amqp.u32(cc), [hx(name), mc, cc])
+    return meth(ch, "queue.declare-ok", amqp.shortstr(name) + amqp.u32(mc) + amqp.u32(cc), [fx(name), fn(mc), fn(cc)])
 
 
 def queue_purge_ok(ch, n):
-    return meth(ch, "queue.purge-ok", amqp.u32(n), [n])
+    return meth(ch, "queue.purge-ok", amqp.u32(n), [fn(n)])
 
 
 def queue_delete_ok(ch, n):
-    return meth(ch, "queue.delete-ok", amqp.u32(n), [n])
+    return meth(ch, "queue.delete-ok", amqp.u32(n), [fn(n)])
 
 
 SIMPLE_OKS = ["exchange.declare-ok", "exchange.delete-ok", "exchange.bind-ok", "exchange.unbind-ok", "queue.bind-ok",
@@ -724,3 +736,34 @@ class Session(Gen):
                 getattr(self, "a_" + self.rng.choice(["rpc", "stale_event", "write", "pending_send", "open", "heartbeat"]))()
         self.finish()
         return self
+
+
+def align(ops, lines):
+    """Pair every op of a machine case with the output lines it produced."""
+    out = []
+    i = 0
+    n = len(lines)
+    for op in ops:
+        t = op.split()
+        got = []
+        if i >= n:
+            out.append((op, got))
+            continue
+        if t[0] == "dump":
+            if lines[i] == "dead":
+                got.append(lines[i]); i += 1
+            else:
+                while i < n:
+                    got.append(lines[i]); i += 1
+                    if got[-1].startswith("blocked-listener"):
+                        break
+        elif (t[0] == "ev" and t[1] == "stream" and "w" in t[2]) or t[0] == "write":
+            got.append(lines[i]); i += 1
+            if got[-1].startswith("wrote") and i < n:
+                got.append(lines[i]); i += 1
+        else:
+            got.append(lines[i]); i += 1
+        if i < n and lines[i] == "nondet":
+            got.append(lines[i]); i += 1
+        out.append((op, got))
+    return out
